@@ -156,12 +156,16 @@ impl<'v> CheapCallStack<'v> {
         span: Option<&'static FrameSpan>,
     ) -> crate::Result<()> {
         if unlikely(self.count >= self.stack.len()) {
+            #[cfg(starlark_verif)]
+            crate::verif::emit("push_overflow", self.count as i64, self.stack.len() as i64, 0);
             return Err(crate::Error::new_kind(ErrorKind::StackOverflow(
                 CallStackError::Overflow.into(),
             )));
         }
         self.stack[self.count] = CheapFrame { function, span };
         self.count += 1;
+        #[cfg(starlark_verif)]
+        crate::verif::emit("push", self.count as i64, 0, 0);
         Ok(())
     }
 
@@ -170,6 +174,8 @@ impl<'v> CheapCallStack<'v> {
         debug_assert!(self.count >= 1);
         // We could clear the elements, but don't need to bother
         self.count -= 1;
+        #[cfg(starlark_verif)]
+        crate::verif::emit("pop", self.count as i64, 0, 0);
     }
 
     /// Current size (in frames) of the stack.
